@@ -75,9 +75,11 @@ def _probe():
 class Specialise(ast.NodeTransformer):
     """partial evaluation of a function body under ASSUME"""
 
-    def __init__(self, fname):
+    def __init__(self, fname, assume=None, int_floats=False):
         self.fname = fname
         self.used = set()
+        self.assume = ASSUME if assume is None else assume
+        self.int_floats = int_floats     # integral float literals become int literals (g14: timedelta.__new__, see there)
 
     def fail(self, node, why):
         raise P.Unsupported(f"{self.fname}: line {getattr(node, 'lineno', '?')}: specialisation: {why}: {ast.unparse(node)[:80]}")
@@ -85,9 +87,9 @@ class Specialise(ast.NodeTransformer):
     def fold(self, e):
         """e with assumed subexpressions replaced and not/and/or over constants folded (test positions only)"""
         key = ast.unparse(e)
-        if key in ASSUME:
+        if key in self.assume:
             self.used.add(key)
-            return ast.copy_location(ast.Constant(value=ASSUME[key]), e)
+            return ast.copy_location(ast.Constant(value=self.assume[key]), e)
         if isinstance(e, ast.UnaryOp) and isinstance(e.op, ast.Not):
             x = self.fold(e.operand)
             if isinstance(x, ast.Constant) and isinstance(x.value, bool):
@@ -131,6 +133,19 @@ class Specialise(ast.NodeTransformer):
         if not body:
             self.fail(node, "empty branch after specialisation")
         return ast.copy_location(ast.If(test=test, body=body, orelse=orelse), node)
+
+    def visit_Assert(self, node):
+        test = self.fold(node.test)
+        if isinstance(test, ast.Constant) and test.value is True:
+            return None                      # an assertion that holds under the assumptions
+        return ast.copy_location(ast.Assert(test=test, msg=node.msg), node)
+
+    def visit_Constant(self, node):
+        if self.int_floats and isinstance(node.value, float):
+            if node.value != int(node.value):
+                self.fail(node, "non-integral float literal")
+            return ast.copy_location(ast.Constant(value=int(node.value)), node)
+        return node
 
     def visit_FunctionDef(self, node):
         new = copy.copy(node)
